@@ -1,7 +1,7 @@
 """C20 - Statistics histories stay bounded, aligned and sane (structural clauses; numeric sanity not decided)."""
 import ast
 from ..model import own_nodes, AnalysisError
-from ..paths import factmap, call_text, returns, must_call, statements
+from ..paths import factmap, call_text, returns, must_call, statements, cf, ctext, holds_when
 from ..defuse import closed_text
 
 HIST_CLASSES = ('HostStatisticsInstance', 'ProcStatisticsInstance')
@@ -25,6 +25,37 @@ def block_of(fn_node, stmt):
                     return r
         return None
     return find(fn_node.body)
+
+
+def trunc_ok(td):
+    """trunc_depth(lst, depth) leaves at most depth elements, removing from the front."""
+    a0, a1 = td.node.args.args[0].arg, td.node.args.args[1].arg
+    fm = factmap(td)
+    over = {cf('len(%s) > %s' % (a0, a1)), cf('len(%s) - %s > 0' % (a0, a1))}
+    body = [s for s in td.node.body if not (isinstance(s, ast.Expr) and isinstance(s.value, ast.Constant))]
+    loops = [n for n in body if isinstance(n, ast.While)]
+    if len(loops) == 1 and len(body) == 1:
+        w = loops[0]
+        return cf(ast.unparse(w.test)) in over and not w.orelse and len(w.body) == 1 and \
+            ast.unparse(w.body[0]) in ('%s.pop(0)' % a0, 'del %s[0]' % a0)
+    sts = [s for s in statements(td.node) if isinstance(s, (ast.Delete, ast.Assign, ast.AugAssign, ast.Expr))
+           and not (isinstance(s, ast.Expr) and isinstance(s.value, ast.Constant))
+           and not (isinstance(s, ast.Assign) and isinstance(s.targets[0], ast.Name))]
+    if len(sts) != 1:
+        return False
+    st = sts[0]
+    guarded = bool(over & {(f[0], f[1]) for f in fm.closed(st)})
+    if isinstance(st, ast.Delete) and len(st.targets) == 1:
+        t = st.targets[0]
+        if isinstance(t, ast.Subscript) and ast.unparse(t.value) == a0 and isinstance(t.slice, ast.Slice) and \
+                t.slice.step is None and (t.slice.lower is None or ast.unparse(t.slice.lower) == '0') and t.slice.upper:
+            up = closed_text(td, t.slice.upper)
+            if up == '-%s' % a1:
+                return True
+            return guarded and up in ('len(%s) - %s' % (a0, a1), '-%s + len(%s)' % (a1, a0))
+    if isinstance(st, ast.Assign) and ast.unparse(st.targets[0]) == '%s[:]' % a0:
+        return ast.unparse(st.value) == '%s[-%s:]' % (a0, a1)
+    return False
 
 
 def history_appends(P):
@@ -64,12 +95,9 @@ def run(P, R):
                 'trunc_depth(%s, self.depth) in the same block: the history grows beyond stats_histo points' %
                 (u.qual, lst, lst))
     td = P.unit('statscompiler:trunc_depth')
-    loops = [n for n in td.node.body if isinstance(n, ast.While)]
-    a0, a1 = td.node.args.args[0].arg, td.node.args.args[1].arg
-    ok = len(loops) == 1 and ast.unparse(loops[0].test) in ('len(%s) > %s' % (a0, a1), '%s < len(%s)' % (a1, a0)) and \
-        len(loops[0].body) == 1 and ast.unparse(loops[0].body[0]) in ('%s.pop(0)' % a0, 'del %s[0]' % a0)
-    R.check(r1, ok, 'trunc_depth drops the oldest element while len > depth', 'trunc|definition', td.loc(),
-            'trunc_depth is not `while len(lst) > depth: lst.pop(0)`')
+    R.check(r1, trunc_ok(td), 'trunc_depth drops the oldest elements beyond depth', 'trunc|definition', td.loc(),
+            'trunc_depth does not leave at most `depth` elements by removing the oldest ones (accepted: `while len(lst) > '
+            'depth: lst.pop(0)`, `del lst[:len(lst) - depth]` under len(lst) > depth, `del lst[:-depth]`)')
     for q, cls_arg in (('HostStatisticsCompiler.add_instance', 'HostStatisticsInstance'),
                        ('ProcStatisticsHolder.push_statistics', 'ProcStatisticsInstance')):
         u = P.unit(q)
@@ -194,8 +222,9 @@ def run(P, R):
     hp = P.unit('ProcStatisticsHolder.push_statistics')
     fm = factmap(hp)
     pops = [c for c in own_nodes(hp.node) if isinstance(c, ast.Call) and call_text(c) == 'self.instance_map.pop']
-    ok = len(pops) == 1 and fm.closed(pops[0]) == {("process_stats['pid'] == 0", True)} and \
-        ast.unparse(pops[0].args[0]) == 'identifier'
+    fz = {(f[0], f[1]) for f in fm.closed(pops[0])} if len(pops) == 1 else set()
+    ok = len(pops) == 1 and bool(fz) and holds_when(fz, {"process_stats['pid']": 0}) is True and \
+        holds_when(fz, {"process_stats['pid']": 1}) is False and ast.unparse(pops[0].args[0]) == 'identifier'
     R.check(r4, ok, 'pid 0 drops the history of that process on that instance', 'drop|holder', hp.loc(),
             'ProcStatisticsHolder.push_statistics pops under %s' % [sorted(tuple(f) for f in fm.at(c)) for c in pops])
     mk = [a for a in own_nodes(hp.node) if isinstance(a, ast.Assign) and ast.unparse(a.targets[0]) == 'self.instance_map[identifier]']
@@ -269,8 +298,12 @@ def run(P, R):
     fm = factmap(io)
     st_ = [a for a in own_nodes(io.node) if isinstance(a, ast.Assign) and ast.unparse(a.targets[0]) == 'io_stats[intf]']
     fs = {tuple(f) for f in fm.at(st_[0])} if len(st_) == 1 else set()
-    ok = {('ref_in <= last_in', True), ('ref_out <= last_out', True)} <= fs and \
-        (('intf in ref_values.keys()', True) in fs or ('intf in ref_values', True) in fs)
+    fc = {(f[0], f[1]) for f in fm.closed(st_[0])} if len(st_) == 1 else set()
+    key = closed_text(io, st_[0].targets[0].slice) if len(st_) == 1 else 'intf'
+    present = {(t % k, pol) for k in ('intf', key) for t, pol in (
+        ('%s in ref_values.keys()', True), ('%s in ref_values', True), ('ref_values.get(%s) is None', False),
+        ('ref_values.get(%s)', True), ('ref_values.get(%s, None) is None', False))}
+    ok = {('ref_in <= last_in', True), ('ref_out <= last_out', True)} <= fs and bool(present & (fs | fc))
     R.check(r5, ok, 'a rate needs both counters non-decreasing and a reference for the entity', 'wrap|io_statistics',
             io.loc(), 'io_statistics stores a rate under %s (needs ref_in <= last_in, ref_out <= last_out and intf in '
             'ref_values)' % sorted(fs))
